@@ -675,6 +675,8 @@ impl PartialEq for Value {
             (&ValueRepr::String(ref a, _), &ValueRepr::String(ref b, _)) => a == b,
             (&ValueRepr::SmallStr(ref a), &ValueRepr::SmallStr(ref b)) => a.as_str() == b.as_str(),
             (&ValueRepr::Bytes(ref a), &ValueRepr::Bytes(ref b)) => a == b,
+            // two u128 values do not necessarily fit the i128 `coerce` calculates with
+            (&ValueRepr::U128(a), &ValueRepr::U128(b)) => { a.0 }.eq(&{ b.0 }),
             _ => match ops::coerce(self, other, false) {
                 Some(ops::CoerceResult::F64(a, b)) => a == b,
                 Some(ops::CoerceResult::I128(a, b)) => a == b,
@@ -863,8 +865,7 @@ impl Ord for Value {
                 a.as_str().cmp(b.as_str())
             }
             (&ValueRepr::Bytes(ref a), &ValueRepr::Bytes(ref b)) => a.cmp(b),
-            // `coerce` represents two u128 values as i128, which reverses the
-            // order if only one of them exceeds i128::MAX.
+            // two u128 values do not necessarily fit the i128 `coerce` calculates with
             (&ValueRepr::U128(a), &ValueRepr::U128(b)) => { a.0 }.cmp(&{ b.0 }),
             _ => match ops::coerce(self, other, false) {
                 Some(ops::CoerceResult::F64(a, b)) => cmp_f64(a, b),
